@@ -171,11 +171,21 @@ func inclusionRule(c *Ctx, R string) {
 			seen[key] = true
 			c.Ob(R, m.name+"/inclusion/"+key, m.loop.Pos()).Ok("product transition %s conforms (no error exit, buffers = raw token, events/line delta as specified)", t)
 		}
-		floor := 29
-		if m.isListMachine() {
-			floor = 12
+		// the exploration must have covered the specification automaton: every one of its states appears in a visited product
+		// state (their number is a constant of the specification; how many machine states pair with them is the machine's business —
+		// a machine with merged states has a smaller product)
+		specStates := map[string]bool{}
+		for _, t := range res.Visited {
+			if i := strings.Index(t, "/"); i > 0 {
+				specStates[t[:i]] = true
+			}
 		}
-		c.R.Floor(R+"/"+m.name+"-product-states", res.States, floor)
+		floor := 12
+		if m.isListMachine() {
+			floor = 8
+		}
+		c.R.Floor(R+"/"+m.name+"-spec-states", len(specStates), floor)
+		c.R.Count("specification states covered "+m.name, len(specStates))
 		c.R.Count("product states "+m.name, res.States)
 		c.R.Count("product transitions "+m.name, res.Trans)
 	}
@@ -336,7 +346,15 @@ func wrapperRule(c *Ctx, rule string) {
 		n++
 		ob := c.Ob(rule, spec.name, fd.Pos())
 		bad, undec, cases := "", "", 0
-		for _, s := range shortStrings("[{\na", c.depth(4, 6)) {
+		// the alphabet: the two root brackets, a line break, a letter — and the characters the wrapper's own code (with the helpers it
+		// inlines) compares the text with or searches it for, so that a pre-pass keyed on other characters (comment markers, a byte
+		// order mark) cannot hide behind inputs that never contain them
+		alphabet, depth := "[{\na", c.depth(4, 6)
+		if extra := c.constCharsOf(fd, alphabet, 4); extra != "" {
+			alphabet += extra
+			depth = c.depth(4, 5)
+		}
+		for _, s := range shortStrings(alphabet, depth) {
 			obs, why := wrapperFold(c, fd, spec.machine, s)
 			if why != "" {
 				undec = why
@@ -366,7 +384,7 @@ func wrapperRule(c *Ctx, rule string) {
 		case bad != "":
 			ob.Fail("%s", bad)
 		default:
-			ob.Ok("for all %d inputs of length <= "+itoa(c.depth(4, 6))+" over {'[', '{', newline, letter}: no root bracket => (nil, error); otherwise the machine gets exactly the text from the first %q and its (root, err) is returned unchanged", cases, spec.bracket)
+			ob.Ok("for all %d inputs of length <= "+itoa(depth)+" over %q: no root bracket => (nil, error); otherwise the machine gets exactly the text from the first %q and its (root, err) is returned unchanged", cases, alphabet, spec.bracket)
 		}
 	}
 	c.R.Floor(rule, n, 2)
@@ -1529,6 +1547,7 @@ func init() {
 			{ID: "C20.R1", Doc: "one increment per newline: statement position, uniqueness, and table delta = [class = NL] for all entries", Run: c20Counter},
 			{ID: "C20.R2", Doc: "nested calls pass the identical line pointer; nested region not re-counted (i += pos)", Run: func(c *Ctx) {}},
 			{ID: "C20.R3", Doc: "seeds: startLine = strings.Count(json[:start], \"\\n\") + 1 for the start passed on; &startLine handed to the machine; ParseFile passes the bytes unmodified", Run: c20Seeds},
+			{ID: "C20.R5", Doc: "no error is raised on a line break itself (the counter moves before the state switch: such a message would cite the following line)", Run: func(c *Ctx) {}},
 			{ID: "C20.R4", Doc: "every `line %d` in an error format receives *line (or a helper's line parameter fed with *line at the delimiter)", Run: c20Formats},
 		},
 	})
@@ -1583,6 +1602,26 @@ func c20Counter(c *Ctx) {
 					bpos = ex.Pos
 				}
 			}
+		}
+		// R5: the counter moves before the state is examined, so an error raised on the line break itself would cite the line after it
+		nlErr, nlRows := "", 0
+		var nlPos token.Pos
+		for _, r := range m.table() {
+			if r.Class.Name != "NL" {
+				continue
+			}
+			nlRows++
+			for _, ex := range r.Exits {
+				if ex.Kind == "ERR" && ex.Note != "propagated" && nlErr == "" {
+					nlErr = fmt.Sprintf("state=%s: an error is raised while the machine looks at a line break; the counter has already moved, so the message cites the line after the break, not the line of the character at which the error was detected", r.State)
+					nlPos = ex.Pos
+				}
+			}
+		}
+		if nlErr == "" {
+			c.Ob("C20.R5", m.name+"/no-error-on-line-break", m.loop.Pos()).Ok("no error exit in the %d (state, flags) entries for the line-break class: every cited line is that of a character behind which the counter has not moved", nlRows)
+		} else {
+			c.Ob("C20.R5", m.name+"/no-error-on-line-break", nlPos).Fail("%s", nlErr)
 		}
 		tob := c.Ob("C20.R1", m.name+"/table-delta", bpos)
 		if bad == "" {
@@ -1688,6 +1727,23 @@ func c04ParseFileAs(c *Ctx, rule string) {
 // line counter: *line read after the iteration's increment (machines), or the helper's line parameter (token consumers, whose call
 // sites pass *line — see consumer-line-arg).
 func c20Formats(c *Ctx) {
+	stringerArg = func(t Term) bool {
+		tt := c.termType(t)
+		if tt == nil {
+			return false
+		}
+		for _, name := range []string{"String", "Error"} {
+			if obj, _, _ := types.LookupFieldOrMethod(tt, true, c.Types, name); obj != nil {
+				if f, ok := obj.(*types.Func); ok {
+					if sig, ok := f.Type().(*types.Signature); ok && sig.Params().Len() == 0 && sig.Results().Len() == 1 && isStringType(sig.Results().At(0).Type()) {
+						return true
+					}
+				}
+			}
+		}
+		return false
+	}
+	defer func() { stringerArg = nil }()
 	n := 0
 	for _, fd := range parserCore(c) {
 		name := declName(fd)
@@ -1731,6 +1787,7 @@ func c20Formats(c *Ctx) {
 			errT := p.Vals[len(p.Vals)-1]
 			call, ok := errT.(TCall)
 			if !ok || call.Fun == nil || (call.Fun.FullName() != "fmt.Errorf" && call.Fun.FullName() != "errors.New") {
+				debugf("c20Formats %s: returned %s\n", name, c.termStr(errT))
 				continue
 			}
 			// integers flowing into the message
@@ -1743,6 +1800,7 @@ func c20Formats(c *Ctx) {
 				collectInts(a, &ints)
 			}
 			if len(ints) == 0 {
+				debugf("c20Formats %s: no integers in %s\n", name, c.termStr(errT))
 				continue
 			}
 			k := c.Pos(posOfNode(p.Node))
@@ -1832,6 +1890,9 @@ func intValued(t Term) bool {
 // collectInts gathers the integer-typed leaves that are formatted into a message: arguments of Errorf/Sprintf and of Itoa/FormatInt.
 // numericArgs: the arguments of a formatting call that can print as numbers: with a constant format, those under the character
 // verbs %c, %q and %U are left out (an integer there prints as a character, not as a number).
+// stringerArg: set by the rule that uses numericArgs — the argument's static type has a String() or Error() method.
+var stringerArg func(Term) bool
+
 func numericArgs(args []Term) []Term {
 	if len(args) == 0 {
 		return args
@@ -1862,7 +1923,11 @@ func numericArgs(args []Term) []Term {
 		if len(rest) == 0 {
 			break
 		}
-		if !strings.ContainsRune("cqU", rune(format[i])) {
+		switch {
+		case strings.ContainsRune("cqU", rune(format[i])):
+		case strings.ContainsRune("sv", rune(format[i])) && stringerArg != nil && stringerArg(rest[0]):
+			// an enumeration with a String() method under %s / %v prints its name, not a number
+		default:
 			out = append(out, rest[0])
 		}
 		rest = rest[1:]
@@ -2011,4 +2076,76 @@ func c04ConsumersTotal(c *Ctx) {
 		}
 	}
 	c.R.Floor("C04.R9", n, 2)
+}
+
+// constCharsOf: the ASCII characters (outside `base`) that occur in the constants of fd's normalised paths — bytes compared with, strings
+// searched for — at most max of them, in code order of first appearance.
+func (c *Ctx) constCharsOf(fd *ast.FuncDecl, base string, max int) string {
+	paths, why := c.runPaths(fd)
+	if why != "" {
+		return ""
+	}
+	out := ""
+	add := func(r rune) {
+		if r < 0x20 && r != '\n' || r > 0x7e || strings.ContainsRune(base, r) || strings.ContainsRune(out, r) || len(out) >= max {
+			return
+		}
+		out += string(r)
+	}
+	var walkT func(t Term)
+	walkT = func(t Term) {
+		collectSubterms(t, func(u Term) {
+			switch x := u.(type) {
+			case TConst:
+				if s, ok := isConstStringTerm(x); ok {
+					if len(s) <= 3 { // search keys, not messages
+						for _, r := range s {
+							add(r)
+						}
+					}
+				}
+			case TBin:
+				// a byte or rune compared with a character constant
+				switch x.Op {
+				case token.EQL, token.NEQ, token.LSS, token.LEQ, token.GTR, token.GEQ:
+					for _, pair := range [][2]Term{{x.X, x.Y}, {x.Y, x.X}} {
+						if k, ok := constInt(pair[1]); ok && k >= 0x21 && k <= 0x7e {
+							if tt := c.termType(pair[0]); tt != nil {
+								if b, isB := tt.Underlying().(*types.Basic); isB && (b.Kind() == types.Uint8 || b.Kind() == types.Int32) {
+									add(rune(k))
+								}
+							}
+						}
+					}
+				}
+			}
+		})
+	}
+	var walkP func(p *Path)
+	walkP = func(p *Path) {
+		for _, s := range p.Steps {
+			walkT(s.Cond.T)
+			walkT(s.LHS)
+			walkT(s.RHS)
+			if s.Call != nil {
+				walkT(*s.Call)
+			}
+			if s.Blt != nil {
+				walkT(*s.Blt)
+			}
+			if s.Loop != nil {
+				walkT(s.Loop.CondT)
+				for _, ip := range s.Loop.Iter {
+					walkP(ip)
+				}
+			}
+		}
+		for _, t := range p.Vals {
+			walkT(t)
+		}
+	}
+	for _, p := range paths {
+		walkP(p)
+	}
+	return out
 }
